@@ -165,6 +165,11 @@ func Grid(opt GridOptions) []File {
 			{Name: "x", Index: 2, Type: Prim("uint32")},
 			{Name: "ms", Index: 3, Type: Array(Named("EdgeEmptyM"))},
 		}},
+		&Record{Kind: Message, Name: "OnlyEmpties", Fields: []Field{{Name: "es", Index: 1, Type: Array(Named("EdgeEmpty"))}}},
+		&Record{Kind: Union, Name: "EmptiesU", Branches: []Branch{
+			{Disc: 1, Rec: &Record{Kind: Struct, Name: "EmptiesUS", Fields: []Field{{Name: "es", Type: Array(Named("EdgeEmpty"))}}}},
+			{Disc: 2, Rec: &Record{Kind: Message, Name: "EmptiesUM", Fields: []Field{{Name: "ess", Index: 1, Type: Array(Array(Named("EdgeEmpty")))}}}},
+		}},
 		// arrays of arrays of records (index variables of nested loops), of maps of records
 		&Record{Kind: Struct, Name: "NestedRecs", Fields: []Field{
 			{Name: "grid", Type: Array(Array(Named("One8")))},
@@ -211,5 +216,34 @@ func GridImported(opt GridOptions) File {
 	f.Records = append(f.Records, &Record{Kind: Struct, Name: "Pixel", Fields: []Field{
 		{Name: "alpha", Type: Prim("byte")}, {Name: "colour", Type: Named("ImpDef")}, {Name: "local", Type: Named("LocalEnum")}, {Name: "big", Type: Named("ImpBig")},
 	}})
+	return f
+}
+
+// GridImportedDirect uses the imported enums only as the direct type of fields (never inside a container): the shape
+// that keeps compiling whatever the per-container templates do with a namespaced type.
+func GridImportedDirect() File {
+	f := File{Enums: []Enum{
+		{Name: "ImpSmall", Base: "uint8", Imported: true, Options: []EnumOption{{Name: "ImpSmallA", Expr: "0"}, {Name: "ImpSmallB", Expr: "7"}, {Name: "ImpSmallC", Expr: "255"}}},
+		{Name: "ImpDef", Imported: true, Options: []EnumOption{{Name: "ImpDefA", Expr: "0"}, {Name: "ImpDefB", Expr: "1"}, {Name: "ImpDefC", Expr: "4294967295"}}},
+		{Name: "ImpBig", Base: "int64", Imported: true, Options: []EnumOption{{Name: "ImpBigA", Expr: "0"}, {Name: "ImpBigB", Expr: "-1"}, {Name: "ImpBigC", Expr: "9223372036854775807"}}},
+	}}
+	f.Records = append(f.Records,
+		&Record{Kind: Struct, Name: "DirS", Fields: []Field{
+			{Name: "lead", Type: Prim("uint8")}, {Name: "a", Type: Named("ImpSmall")}, {Name: "b", Type: Named("ImpDef")},
+			{Name: "c", Type: Named("ImpBig")}, {Name: "tail", Type: Prim("string")},
+		}},
+		&Record{Kind: Message, Name: "DirM", Fields: []Field{
+			{Name: "a", Index: 1, Type: Named("ImpSmall")}, {Name: "b", Index: 2, Type: Named("ImpDef")},
+			{Name: "c", Index: 3, Type: Named("ImpBig")}, {Name: "x", Index: 4, Type: Prim("uint32")},
+		}},
+		&Record{Kind: Union, Name: "DirU", Branches: []Branch{
+			{Disc: 1, Rec: &Record{Kind: Struct, Name: "DirUS", Fields: []Field{{Name: "b", Type: Named("ImpDef")}, {Name: "after", Type: Prim("uint16")}}}},
+			{Disc: 2, Rec: &Record{Kind: Message, Name: "DirUM", Fields: []Field{{Name: "c", Index: 1, Type: Named("ImpBig")}, {Name: "a", Index: 2, Type: Named("ImpSmall")}}}},
+		}},
+		&Record{Kind: Struct, Name: "DirHolds", Fields: []Field{
+			{Name: "s", Type: Named("DirS")}, {Name: "m", Type: Named("DirM")}, {Name: "u", Type: Named("DirU")},
+			{Name: "ss", Type: Array(Named("DirS"))}, {Name: "mm", Type: Map("string", Named("DirM"))}, {Name: "tail", Type: Prim("uint8")},
+		}},
+	)
 	return f
 }
